@@ -292,7 +292,7 @@ func trunc(s string) string {
 
 type stats struct {
 	executions, points, maxPoints, deviating int64
-	outcomes                      map[string]int64
+	outcomes                                 map[string]int64
 }
 
 // explore enumerates all executions of the scenario within the bounds (iterative DFS).
